@@ -532,6 +532,33 @@ def expected_counts(prog):
     return nc, nf
 
 
+def documented_c_names(prog):
+    """C names by the documented rule (prefix, scope, underscore name, function suffix), computed from the input
+    alone, for template-free programs: entry points of one name in declaration order (default-argument variants
+    first), numbered _0.._n-1 when there are several unless a suffix was given explicitly."""
+    from shroud import util
+    names = []
+    prefix = prog["library"].upper()[:3] + "_"
+    w = prog["wrap"]
+    for c in prog["containers"]:
+        scope = "".join(n + "_" for _, n in c["path"])
+        groups = {}
+        for fn in c["fns"]:
+            if fn["tinst"]:
+                return None
+            g = groups.setdefault(fn["name"], [])
+            for k in range(fn["ndefaults"] + 1):
+                e = fn["dsuffix"][k] if (fn["ndefaults"] and k < len(fn["dsuffix"])) else fn["suffix"]
+                g.append((e, fn["hasBuf"]))
+        for name, g in groups.items():
+            for i, (e, hb) in enumerate(g):
+                sfx = e if e is not None else ("_%d" % i if len(g) > 1 else "")
+                names.append(prefix + scope + util.un_camel(name) + sfx)
+                if hb and w[0] and w[1]:
+                    names.append(prefix + scope + util.un_camel(name) + sfx + "_bufferify")
+    return names
+
+
 def oracle_full(ctx, prog, tag):
     """Generate for real; report duplicate / missing names.  Returns True if a failure was recorded."""
     import yaml
@@ -569,6 +596,9 @@ def oracle_full(ctx, prog, tag):
             failed |= bool(ctx.fail("%s:count-c" % tag, "expected %d C entry points, generated %d (%s)" % (ec, len(cdefs), sorted(cdefs)), replay))
         if nprocs != ef and not has_cls:
             failed |= bool(ctx.fail("%s:count-f" % tag, "expected %d Fortran specific procedures, generated %d" % (ef, nprocs), replay))
+        doc = documented_c_names(prog)
+        if doc is not None and not has_cls and sorted(doc) != sorted(cdefs):
+            failed |= bool(ctx.fail("%s:names-c" % tag, "C entry points %s differ from the documented names %s" % (sorted(cdefs), sorted(doc)), replay))
         # generic interface membership for class-free programs: every name with >1 Fortran specific has an
         # interface listing exactly its specifics
         if not has_cls:
